@@ -1,7 +1,7 @@
 (* C16 - The BUILD language agrees with Python on its documented subset.
    This file holds only the statement, the property theorems and their non-vacuity examples. *)
 From PlzV Require Import Base.Harness Model.C16_Syntax Model.C16_Ops Model.C16_Prim Model.C16_Eval Model.C16.
-From PlzV Require Import Proof.C16_Ops Proof.C16_Int Proof.C16.
+From PlzV Require Import Proof.C16_Ops Proof.C16_Int Proof.C16 Proof.C16_Prog.
 
 (* Every program of the modelled subset (integers, strings, lists, dicts, comprehensions, functions, if/for and
    the builtins len sorted reversed range enumerate zip any all min max str join split ...) that asp evaluates
@@ -23,7 +23,10 @@ Print Assumptions C16_refuted.
       tables are the ones regenerated from grammar.go;
    2. asp's 64-bit integer operators give CPython's result under int_safe (no overflow; % with operands of the
       same sign or divisor zero; // with |operands| < 2^53 and a non-zero divisor; never /);
-   3. + on a list whose capacity equals its length allocates a fresh array and writes no existing one. *)
+   3. + on a list whose capacity equals its length allocates a fresh array and writes no existing one;
+   4. whole programs: for every program `x = <chain over integer literals>`, every fuel - if the chain is safe and
+      CPython's evaluation of it (tree_val) stays within the side conditions of 2, the asp run and the CPython run
+      of the program are equal. *)
 Definition C16_partial_statement : Prop :=
   (forall (evalx : vexpr -> state -> res (value * state)) fuel obj (ops : list opitem) st,
      chain_class (items_of ops) = None ->
@@ -38,14 +41,18 @@ Definition C16_partial_statement : Prop :=
         s_arr r = length (arrays st)
         /\ (forall a, (a < length (arrays st))%nat -> arr_of st' a = arr_of st a)
         /\ list_items Asp st' r = list_items Asp st l ++ items2
-        /\ s_cap r = s_len r).
+        /\ s_cap r = s_len r)
+  /\ (forall fuel x z0 ops v,
+        ops_safe (items_of ops) = true ->
+        tree_val (py_tree (TVal (VInt z0)) (items_of ops)) = Some v ->
+        run Asp [] fuel [chain_prog x z0 ops] = run Py [] fuel [chain_prog x z0 ops]).
 
 Theorem C16_partial : C16_partial_statement.
 Proof.
   exact (conj chain_unflagged_agrees
         (conj (@chain_class_none_safe vexpr)
         (conj (@groupings_agree vexpr value)
-        (conj int_ops_agree list_add_full_is_pure)))).
+        (conj int_ops_agree (conj list_add_full_is_pure int_chain_program_agrees))))).
 Qed.
 Print Assumptions C16_partial.
 
@@ -63,5 +70,6 @@ Example C16_partial_nonvacuous :
   chain_class (items_of ops) = None
   /\ asp_run [] [[SAssign (s "a") (Ex (XInt 0) ops None)]] = [OGlobals [(s "a", OBool true)] [(s "a", OBool true)]]
   /\ py_run [SAssign (s "a") (Ex (XInt 0) ops None)] = OGlobals [(s "a", OBool true)] [(s "a", OBool true)]
-  /\ int_safe Mod 7 3 = true /\ int_safe Mul 3037000500 3037000500 = false.
+  /\ int_safe Mod 7 3 = true /\ int_safe Mul 3037000500 3037000500 = false
+  /\ tree_val (py_tree (TVal (VInt 0)) (items_of ops)) = Some (PB true).
 Proof. vm_compute. repeat split. Qed.
